@@ -269,6 +269,10 @@ class MolQueryReader(object):
             self.ReadAtomConstraintChain(tree[2][1:], molquery, idx)
 
     def ReadBondTypeBondedAtom(self, idx, idx_connected, bondtype, molquery):
+        if (idx == idx_connected or
+                molquery.mol.GetBondBetweenAtoms(idx, idx_connected)):
+            raise RINGReaderError('Invalid bond: atoms are identical or '
+                                  'already bonded')
         if bondtype == 'single':
             molquery.mol.AddBond(idx, idx_connected, Chem.BondType.SINGLE)
         elif bondtype == 'double':
